@@ -119,6 +119,12 @@ static inline RelocEntry* add_reloc(RelocType type) {
 // the equality is a proof obligation, the assignment of the constant is then a no-op that makes loops / switches over it concrete.
 #define V_CONCRETIZE(lvalue, constant, msg) do { V_ASSERT((lvalue) == (constant), msg); (lvalue) = (constant); } while (0)
 
+// Witnesses reached inside template instantiations: the runner keys witnesses by text, so several instances of one text would
+// shadow each other. Instantiations record a bit; the (single) harness function emits each witness once at its end.
+static uint32_t wit_mask;
+#define V_WITNESS_MARK(bit) (chenv::wit_mask |= (1u << (bit)))
+#define V_WITNESS_EMIT(bit, label) do { if (chenv::wit_mask & (1u << (bit))) V_WITNESS(label); } while (0)
+
 static inline uint64_t load_le(const uint8_t* p, uint32_t n) { uint64_t v = 0; for (uint32_t i = 0; i < n; i++) v |= uint64_t(p[i]) << (8 * i); return v; }
 static inline int64_t sext(uint64_t v, uint32_t bits) { return bits >= 64 ? int64_t(v) : int64_t(v << (64 - bits)) >> (64 - bits); }
 static inline uint64_t lsb_mask(uint32_t n) { return n >= 64 ? ~0ull : ((1ull << n) - 1); }
